@@ -185,8 +185,9 @@ class Ent:
             r = nlen(rd[0]) + 2 + (max(rd[1]) // 8 + 1 if rd[1] else 0)
         return nlen(self.name) + 10 + r
 
-    def in_quantifier(self):
-        """well-formedness of the property's quantifier, except label lengths"""
+    def in_quantifier(self, dotless_ok=False):
+        """well-formedness of the property's quantifier, except label lengths.  `dotless_ok` (C14, whose quantifier says nothing
+        about the spelling of names): a name handed over without its trailing dot is written like the same name with it"""
         names = [self.name]
         if self.kind == "p":
             names.append(self.rd[0])
@@ -195,7 +196,11 @@ class Ent:
         elif self.kind == "n":
             names.append(self.rd[0])
         for n in names:
-            if not n.endswith(".") or len(n) > 253 or n == "." or any(len(l) == 0 for l in labels_of(n)):
+            if not n.endswith("."):
+                if not dotless_ok or n == "":
+                    return False
+                n = n + "."
+            if len(n) > 253 or n == "." or any(len(l) == 0 for l in labels_of(n)):
                 return False
         if not (0 <= self.type < 65536 and 0 <= self.class_ < 32768):
             return False
@@ -287,8 +292,8 @@ class GenMsg:
     def entries(self):
         return self.qs + self.an + self.au + self.ad
 
-    def in_quantifier(self):
-        return 0 <= self.flags < 65536 and 0 <= self.id < 65536 and all(e.in_quantifier() for e in self.entries())
+    def in_quantifier(self, dotless_ok=False):
+        return 0 <= self.flags < 65536 and 0 <= self.id < 65536 and all(e.in_quantifier(dotless_ok) for e in self.entries())
 
     def handed_to_builder(self):
         """an answer that is already expired at its `now` is dropped by add_answer_at_time: the builder never sees its names"""
@@ -542,6 +547,22 @@ class Gen:
         r = self.rng
         qt = r.choice([12, 1, 28, 33, 16, 255, 47, 12, 1, 256, 0x010C, 0xFF01, 65535, 0, r.randint(0, 65535)])
         return Ent("q", self.name() if r.random() > 0.02 else self.long_name(), qt, self.cls(), r.random() < 0.4)
+
+    def qsplit_message(self):
+        """a query that has to split **inside its question section**: 100-160 questions whose names share no suffix (nothing to
+        compress), most of them spelled without the trailing dot (write_name writes them like the dotted spelling, one octet more
+        than the characters of the str).  `pad` (the length of the first label) is steered by `c01.qsplit_seek` so that the first
+        datagram ends exactly on / one octet beyond the 1460 limit."""
+        r = self.rng
+        nq = r.randint(100, 160)
+        tag = r.choice(["h", "q", "é"])
+        qs = [Ent("q", "x" * r.randint(1, 20) + ".first" + r.choice(["", "."]), r.choice([1, 12, 28]), 1, r.random() < 0.3)]
+        for i in range(nq):
+            n = "%s%03d.n%03d" % (tag, i, i)
+            qs.append(Ent("q", n if r.random() < 0.7 else n + ".", r.choice([1, 12, 28, 255]), 1, r.random() < 0.3))
+        flags = r.choice([0, 0, 0x0100])
+        an = [self.record() for _ in range(r.choice([0, 0, 2]))]
+        return GenMsg(flags, r.choice([0, 1, 0xFFFF]), r.random() < 0.6, qs, an, [], [])
 
     def message(self, size_class=None):
         r = self.rng
